@@ -40,7 +40,28 @@ var stdFiles = []string{"a/x.go", "a/y.xgo", "b/x.go", "b/s/z.go", "x.go"}
 
 type gateFn func(dir string, n int)
 
-var gates sync.Map // *watcher.Changes -> gateFn
+var gates sync.Map    // *watcher.Changes -> gateFn
+var prelocks sync.Map // *watcher.Changes -> func(), called before mutex.Lock (only with the prelock hook)
+
+// preLockYield returns a cheap seeded yield for the pre-lock hook.
+func preLockYield(mode int) func() {
+	var ctr atomic.Uint64
+	return func() {
+		h := ctr.Add(1) * 0x9E3779B97F4A7C15 >> 40
+		switch mode {
+		case 1:
+			runtime.Gosched()
+		case 2:
+			if h%3 == 0 {
+				runtime.Gosched()
+			}
+		case 3:
+			if h%5 == 0 {
+				spin(time.Duration(h%5) * time.Microsecond)
+			}
+		}
+	}
+}
 
 func init() {
 	watcher.VerifGate = func(p *watcher.Changes, dir string, n int) {
@@ -170,8 +191,8 @@ func watcherStress(args []string) {
 	nlong := argInt(args, "-bursts", 20)
 	blen := argInt(args, "-burstlen", 4000)
 	// long bursts: judged on the spot by the statement of C40 (no TLC: thousands of distinct directories)
-	reports, fetched := 0, 0
-	for i := 0; i < nlong; i++ {
+	reports, fetched, nviol := 0, 0, 0
+	for i := 0; i < nlong && nviol < 2; i++ {
 		rng := rand.New(rand.NewSource(seed*9000011 + int64(i)))
 		r := burstLong(rng, rootDir, blen)
 		reports += r.reports
@@ -181,6 +202,7 @@ func watcherStress(args []string) {
 			continue
 		}
 		if r.sig != "" {
+			nviol++
 			hlib.EmitRaw(map[string]any{"v": "viol", "sig": r.sig, "detail": r.detail, "nt": r.shape, "src": "burst",
 				"input": map[string]any{"burst": i, "shape": r.shape}})
 			continue
@@ -266,6 +288,10 @@ func stressOne(rng *rand.Rand, rootDir string, burst bool) (evs []map[string]any
 		}
 	}))
 	defer gates.Delete(c)
+	if havePreLock {
+		prelocks.Store(c, preLockYield(rng.Intn(4)))
+		defer prelocks.Delete(c)
+	}
 
 	start := make(chan struct{})
 	var pwg sync.WaitGroup
@@ -929,6 +955,12 @@ func burstLong(rng *rand.Rand, rootDir string, total int) (res burstResult) {
 		}
 	}))
 	defer gates.Delete(c)
+	if havePreLock {
+		pm := rng.Intn(4)
+		res.shape += fmt.Sprintf("/prelock%d", pm)
+		prelocks.Store(c, preLockYield(pm))
+		defer prelocks.Delete(c)
+	}
 	started := make([]atomic.Bool, total)
 	var fetchedN = make([]int32, total)
 	cons := &wproc{name: "c1"}
